@@ -690,7 +690,11 @@ func (c *trCtx) returnMutCall(x *ast.ReturnStmt, call *ast.CallExpr, tf *trFunc,
 		args = append(args, c.expr(recv))
 	}
 	for i, a := range call.Args {
-		args = append(args, c.identityArg(tf.obj, i, a, c.expr(a)))
+		s := c.identityArg(tf.obj, i, a, c.expr(a))
+		if ps := tf.obj.Type().(*types.Signature).Params(); i < ps.Len() {
+			s = c.ifaceArg(ps.At(i).Type(), a, s)
+		}
+		args = append(args, s)
 	}
 	args = append(args, c.passExtras(tf)...)
 	c.fn.deps = append(c.fn.deps, tf)
